@@ -449,7 +449,7 @@ func c01NegotiateFeatures(c *cx, nf *eng.Fn, call *ast.CallExpr) (firstParam str
 			// Resource binding ends the negotiation through its mask; clearing
 			// the bit unconditionally leaves every session waiting for a
 			// features list that never comes.
-			keepCut := g.CutFor("eq(" + callNorm + "#1,nil)", "eq(r1,nil)")
+			keepCut := g.CutFor("eq("+callNorm+"#1,nil)", "eq(r1,nil)")
 			stripped := ""
 			for _, b := range g.Blocks {
 				if !b.Live {
